@@ -436,3 +436,44 @@ def run_c06(run, scratch, seed, tier):
 PROPS["C14"] = {"props_file": "C14.v", "run": run_c14}
 PROPS["C15"] = {"props_file": "C15.v", "run": run_c15}
 PROPS["C06"] = {"props_file": "C06.v", "run": run_c06}
+
+
+# ---------------------------------------------------------------- C04
+def run_c04(run, scratch, seed, tier):
+    st = suites.lookahead_suite(run, scratch, seed, sizes(tier, 250, 4000))
+    run.add_suite("lookahead_pairs", st)
+    run.cov["rule"] = st["rule"]
+    bst = backtest_suite(run, scratch, seed, sizes(tier, 250, 4000))
+    run.add_suite("backtest_runs", bst)
+    fst = backtest_suite(run, scratch, seed + 3, sizes(tier, 80, 1500), name="fi_suite", gen=gen_fi_cases)
+    run.add_suite("fi_suite", fst)
+
+
+PROPS["C04"] = {"props_file": "C04.v", "run": run_c04}
+
+
+# ---------------------------------------------------------------- C20
+def run_c20(run, scratch, seed, tier):
+    import gen_backtest
+    rst = backtest_suite(run, scratch, seed, sizes(tier, 200, 4000), name="risk_suite",
+                         oracle_fns=[("C20 risk", oracles.c20_risk)], gen=gen_backtest.gen_risk_cases)
+    run.add_suite("risk_suite", rst)
+    run.cov["rule"] = ("UpdateRisk over flat and nested trees with per-security multipliers, unit-risk frames on their own index "
+                       "(missing columns count as zero), a one-instrument hedge of the measure, UpdateRisk again; " + rst["rule"])
+    fst = backtest_suite(run, scratch, seed + 3, sizes(tier, 200, 3000), name="fi_suite",
+                         oracle_fns=[("C20 close/roll", oracles.c20_risk)], gen=gen_fi_cases,
+                         known=[("c20_lazy_child_not_closed", lambda c, ic, f: all(x.startswith("[K14") for x in f))])
+    run.add_suite("fi_suite_close_roll", fst)
+    out = json.loads(common.run_impl(scratch, "impl_hedge.py", json.dumps({"seed": seed, "n": sizes(tier, 60, 1000)})))
+    for f in out["failures"][:2]:
+        run.violation({"suite": "hedge_postconditions", "failure": f}, "C20: " + f["what"])
+    run.add_suite("hedge_postconditions", {
+        "evaluations": out["evaluations"], "distinct_nontrivial": out["evaluations"], "oracle_failures": out["n_failures"],
+        "traces_validated_against_impl": 0,
+        "rule": "HedgeRisks with 1-3 measures and as many / one more / one fewer instruments (np.linalg kernels are outside the "
+                "model), unit-risk tables on different date indexes with time-varying values, multipliers: after hedging and a "
+                "fresh UpdateRisk every measure is zero (square / over-determined) or the residual satisfies the normal equations",
+        "samples": [{"seed": seed}]})
+
+
+PROPS["C20"] = {"props_file": "C20.v", "run": run_c20}
